@@ -243,7 +243,7 @@ impl World {
                 self.sigmix(0xA0);
                 self.check_metrics(a);
             }
-            Caught::Ok(Err(())) | Caught::Injected => {
+            Caught::Ok(Err(())) | Caught::Injected | Caught::Stopped => {
                 self.stats.ctor_failures += 1;
                 self.sigmix(0xA1);
                 self.account_dead_arena(a, true);
@@ -365,6 +365,7 @@ impl World {
                             Caught::Ok(rep)
                         }
                         Caught::Ok(None) => Caught::Ok(None),
+                        Caught::Stopped => Caught::Stopped,
                         Caught::Injected => Caught::Injected,
                         Caught::Unexpected(m) => Caught::Unexpected(m),
                     }
@@ -377,7 +378,7 @@ impl World {
         self.process_events(&empty, &empty);
         let rep = match res {
             Caught::Ok(r) => r,
-            Caught::Injected => None,
+            Caught::Injected | Caught::Stopped => None,
             Caught::Unexpected(msg) => {
                 self.violate("C10.panic", format!("a {cbk:?} callback call on arena {a} panicked: {msg}"));
                 if let Some(s) = slot {
